@@ -201,6 +201,21 @@ func runC18(e *hk.Env) (retErr error) {
 		os.Remove(p)
 	}
 
+	// HOME points into the sandbox for the whole run: code that expands a leading '~' is redirected to a harmless,
+	// observable place; the original working directory is restored after every case that changes it.
+	homeDir := filepath.Join(rootA, "home")
+	if err := os.MkdirAll(homeDir, 0o755); err != nil {
+		return err
+	}
+	if err := os.Setenv("HOME", homeDir); err != nil {
+		return err
+	}
+	origWd, err := os.Getwd()
+	if err != nil {
+		origWd = "/"
+	}
+	defer os.Chdir(origWd)
+
 	sizes := []int{0, 1, 10, 4096, 32768, 32769, 65536, 1 << 20}
 	nRandomSizes := 4
 	if e.Thorough() {
@@ -255,6 +270,48 @@ func runC18(e *hk.Env) (retErr error) {
 		return b
 	}
 	byClass := map[string]int{}
+	bySpelling := map[string]int{}
+	byPrep := map[string]int{}
+
+	// Optional dimensions of a case, set by the caller before one() and reset afterwards:
+	// srcSpell / dstSpell: how the path is written (the file it names is the same; lexical cleaning of the text
+	//   would name another file): 0 plain, 1 <work>/<symlink to dir/sub>/../name, 2 doubled slashes (+ "/." on a
+	//   directory), 3 a file literally named "~" passed as "~" (cwd = its directory), 4 the same as "./~",
+	//   5 "~/name" with a directory literally named "~" in the cwd.
+	// prep: state of the existing destination file (kinds other-file / symlink-to-other) relative to the source:
+	//   1..6 = (size, mtime, content) same or different, 7 = the destination is the product of an earlier
+	//   CopyFile(X, dest) by the code under test and the source has X's size and modification time.
+	srcSpell, dstSpell, prep := 0, 0, 0
+	spellNames := []string{"plain", "symlink/..", "double-slash", "tilde-file", "dot-tilde-file", "tilde-dir"}
+	prepNames := []string{"-", "size!=,mtime!=", "size!=,mtime==", "size==,mtime!=,content!=", "size==,mtime==,content!=",
+		"size==,mtime!=,content==", "size==,mtime==,content==", "two-step: X->D, then Y->D with X's size and mtime"}
+	// spelled returns the text to pass for the file dir/name and the directory to chdir to ("" = none)
+	spelled := func(spell int, work, dir, sub, name string, isDir bool) (arg, cwd string, ok bool) {
+		switch spell {
+		case 1:
+			if os.MkdirAll(filepath.Join(dir, sub), 0o755) != nil || os.MkdirAll(work, 0o755) != nil {
+				return "", "", false
+			}
+			lnk := filepath.Join(work, "lnk-"+sub)
+			if os.Symlink(filepath.Join(dir, sub), lnk) != nil {
+				return "", "", false
+			}
+			return lnk + "/../" + name, "", true
+		case 2:
+			a := dir + "//" + name
+			if isDir {
+				a += "/."
+			}
+			return a, "", true
+		case 3:
+			return "~", dir, true
+		case 4:
+			return "./~", dir, true
+		case 5:
+			return "~/" + name, filepath.Dir(dir), true
+		}
+		return filepath.Join(dir, name), "", true
+	}
 
 	one := func(op, kind int, other, srcMissing bool, size, variant, class int) {
 		caseNo++
@@ -275,7 +332,27 @@ func runC18(e *hk.Env) (retErr error) {
 			return
 		}
 		srcDir := filepath.Join(base, "s")
-		src := filepath.Join(srcDir, "src file.dat")
+		srcName := "src file.dat"
+		if srcSpell == 3 || srcSpell == 4 {
+			srcName = "~"
+		}
+		srcFileDir := srcDir
+		if srcSpell == 5 {
+			srcFileDir = filepath.Join(srcDir, "~")
+			os.MkdirAll(srcFileDir, 0o755)
+		}
+		src := filepath.Join(srcFileDir, srcName)
+		dstFileDir := dstDir
+		if dstSpell == 5 {
+			dstFileDir = filepath.Join(dstDir, "~")
+			os.MkdirAll(dstFileDir, 0o755)
+		}
+		nm := func(n string) string {
+			if dstSpell == 3 || dstSpell == 4 {
+				return "~"
+			}
+			return n
+		}
 		orig := makeContent(class, size, fill)
 		byClass[classNames[class]]++
 		origSum := sha256.Sum256(orig)
@@ -293,13 +370,15 @@ func runC18(e *hk.Env) (retErr error) {
 		os.WriteFile(third2, thirdContent, 0o644)
 
 		var dst string
+		existing := "" // the regular file an existing destination leads to (prep applies to it)
 		setupOK := true
 		switch kind {
 		case kMissing:
-			dst = filepath.Join(dstDir, "dst.dat")
+			dst = filepath.Join(dstFileDir, nm("dst.dat"))
 		case kOther:
-			dst = filepath.Join(dstDir, "dst.dat")
+			dst = filepath.Join(dstFileDir, nm("dst.dat"))
 			setupOK = os.WriteFile(dst, otherContent, 0o644) == nil
+			existing = dst
 		case kSamePath:
 			dst = src
 		case kDotSpelling:
@@ -318,7 +397,7 @@ func runC18(e *hk.Env) (retErr error) {
 			dst = filepath.Join(dstDir, "hard.dat")
 			setupOK = os.Link(src, dst) == nil
 		case kDir:
-			dst = filepath.Join(dstDir, "dstdir")
+			dst = filepath.Join(dstFileDir, nm("dstdir"))
 			setupOK = os.Mkdir(dst, 0o755) == nil
 		case kParentMissing:
 			dst = filepath.Join(dstDir, "nodir", "dst.dat")
@@ -327,8 +406,9 @@ func runC18(e *hk.Env) (retErr error) {
 			dst = filepath.Join(dstDir, "afile", "dst.dat")
 		case kSymlinkToOther:
 			target := filepath.Join(dstDir, "other.dat")
-			dst = filepath.Join(dstDir, "dst.lnk")
+			dst = filepath.Join(dstFileDir, nm("dst.lnk"))
 			setupOK = os.WriteFile(target, otherContent, 0o644) == nil && os.Symlink(target, dst) == nil
+			existing = target
 		case kDevFull:
 			// never used as a path: buggy code under test that removes or renames over its destination
 			// would destroy the device node. The model kind stays; the harness only uses the symlink spelling.
@@ -351,11 +431,122 @@ func runC18(e *hk.Env) (retErr error) {
 			return
 		}
 
-		// the destination path itself (lexically) must lie inside the scratch roots; only a symlink may lead out
-		cleanDst := filepath.Clean(dst)
-		if !(strings.HasPrefix(cleanDst, rootA+"/") || (rootB != "" && strings.HasPrefix(cleanDst, rootB+"/"))) {
-			retErr = fmt.Errorf("refusing destination outside the scratch roots: %s", dst)
-			return
+		// state of the existing destination relative to the source
+		if prep != 0 && existing != "" && !srcMissing {
+			t0 := time.Date(2021, 3, 4, 5, 6, 7, 123456789, time.UTC)
+			sameSize := prep >= 3
+			sameMtime := prep == 2 || prep == 4 || prep == 6
+			sameContent := prep >= 5
+			switch {
+			case prep == 7:
+				// X: same size as the source, other bytes; D := CopyFile(X, dest) by the code under test
+				x := filepath.Join(srcDir, "x.dat")
+				xb := append([]byte(nil), orig...)
+				for i := range xb {
+					xb[i] ^= 0x5A
+				}
+				if os.WriteFile(x, xb, 0o644) != nil || os.Chtimes(x, t0, t0) != nil {
+					e.Count("setup_failed", 1)
+					return
+				}
+				stepErr := func() (err error) {
+					defer func() {
+						if p := recover(); p != nil {
+							err = fmt.Errorf("panic: %v", p)
+						}
+					}()
+					_, err = osutil.CopyFile(x, dst)
+					return
+				}()
+				if stepErr != nil {
+					e.Count("two_step_first_copy_failed", 1)
+					return
+				}
+				sameMtime = true
+			case sameContent:
+				setupOK = os.WriteFile(existing, orig, 0o644) == nil
+			case sameSize:
+				ob := append([]byte(nil), orig...)
+				for i := range ob {
+					ob[i] ^= 0xC3
+				}
+				setupOK = os.WriteFile(existing, ob, 0o644) == nil
+			}
+			if !srcMissing {
+				setupOK = setupOK && os.Chtimes(src, t0, t0) == nil
+			}
+			if prep != 7 {
+				td := t0
+				if !sameMtime {
+					td = t0.Add(-time.Hour)
+				}
+				setupOK = setupOK && os.Chtimes(existing, td, td) == nil
+			}
+			if !setupOK {
+				e.Count("setup_failed", 1)
+				return
+			}
+			byPrep[prepNames[prep]]++
+		}
+
+		// how the two paths are written
+		srcCanon, dstCanon := src, dst
+		cwd := ""
+		if srcSpell != 0 {
+			a, c, ok := spelled(srcSpell, filepath.Join(base, "w"), srcFileDir, "sub-s", filepath.Base(src), false)
+			if !ok {
+				e.Count("setup_failed", 1)
+				return
+			}
+			src, cwd = a, c
+		}
+		if dstSpell != 0 {
+			a, c, ok := spelled(dstSpell, filepath.Join(base, "w"), dstFileDir, "sub-d", filepath.Base(dst), kind == kDir)
+			if !ok || (c != "" && cwd != "" && c != cwd) {
+				e.Count("setup_failed", 1)
+				return
+			}
+			dst = a
+			if c != "" {
+				cwd = c
+			}
+		}
+		if cwd != "" {
+			if os.Chdir(cwd) != nil {
+				e.Count("setup_failed", 1)
+				return
+			}
+			defer os.Chdir(origWd)
+		}
+		if srcSpell != 0 || dstSpell != 0 {
+			bySpelling["src:"+spellNames[srcSpell]+" dst:"+spellNames[dstSpell]]++
+			// the spelling must name the very same file for the kernel
+			same := func(a, b string) bool {
+				ia, ea := os.Lstat(a)
+				ib, eb := os.Lstat(b)
+				if ea != nil || eb != nil {
+					return (ea != nil) == (eb != nil)
+				}
+				return os.SameFile(ia, ib)
+			}
+			if !same(src, srcCanon) || !same(dst, dstCanon) {
+				retErr = fmt.Errorf("spelling does not name the intended file: %q vs %q / %q vs %q", src, srcCanon, dst, dstCanon)
+				return
+			}
+		}
+
+		// both paths themselves (lexically, relative ones against the cwd) must lie inside the scratch roots; only a
+		// symlink may lead out
+		for _, pth := range []string{src, dst} {
+			cl := pth
+			if !filepath.IsAbs(cl) {
+				cl = filepath.Join(cwd, cl)
+			}
+			cl = filepath.Clean(cl)
+			if !(strings.HasPrefix(cl, rootA+"/") || (rootB != "" && strings.HasPrefix(cl, rootB+"/"))) {
+				retErr = fmt.Errorf("refusing path outside the scratch roots: %s", pth)
+				return
+			}
 		}
 		if kind == kSymlinkDevFull && !devFullIntact() {
 			retErr = fmt.Errorf("/dev/full is not the character device 1:7 before the scenario")
@@ -407,7 +598,8 @@ func runC18(e *hk.Env) (retErr error) {
 		thirdOK := err1 == nil && err2 == nil && bytes.Equal(t1, thirdContent) && bytes.Equal(t2, thirdContent)
 
 		fields := []string{strconv.Itoa(op), strconv.Itoa(kind), b2s(other), b2s(srcMissing), b2s(size > 0),
-			b2s(ok), b2s(srcPresent), b2s(srcOrig), b2s(dstOrig), b2s(thirdOK), strconv.Itoa(size), strconv.Itoa(variant), strconv.Itoa(class)}
+			b2s(ok), b2s(srcPresent), b2s(srcOrig), b2s(dstOrig), b2s(thirdOK), strconv.Itoa(size), strconv.Itoa(variant), strconv.Itoa(class),
+			strconv.Itoa(srcSpell), strconv.Itoa(dstSpell), strconv.Itoa(prep)}
 		e.Case(append([]string{"E"}, fields...)...)
 		byKind[[]string{"CopyFile", "MoveFile"}[op]+"/"+kindNames[kind]+map[bool]string{false: "", true: "/other-device"}[other]+map[bool]string{false: "", true: "/missing-source"}[srcMissing]]++
 		byOutcome[fmt.Sprintf("ok=%v src_present=%v src_orig=%v dst_orig=%v", ok, srcPresent, srcOrig, dstOrig)]++
@@ -440,7 +632,7 @@ func runC18(e *hk.Env) (retErr error) {
 				msg = strings.ReplaceAll(msg, dstBase, "<B>")
 			}
 			e.Sample("samples", map[string]any{"op": []string{"CopyFile", "MoveFile"}[op], "dest": kindNames[kind], "other_device": other,
-				"size": size, "content": classNames[class], "error": msg, "src_present": srcPresent, "src_orig": srcOrig, "dst_orig": dstOrig}, 8)
+				"size": size, "content": classNames[class], "src_spelling": spellNames[srcSpell], "dst_spelling": spellNames[dstSpell], "dest_state": prepNames[prep], "error": msg, "src_present": srcPresent, "src_orig": srcOrig, "dst_orig": dstOrig}, 8)
 		}
 	}
 
@@ -499,6 +691,78 @@ func runC18(e *hk.Env) (retErr error) {
 			}
 		}
 	}
+	// ---- path spellings whose lexical cleaning names another file (for the source and for the destination)
+	devs := []bool{false}
+	if otherDev {
+		devs = append(devs, true)
+	}
+	spellSizes := []int{1, 4096}
+	if e.Thorough() {
+		spellSizes = []int{0, 1, 4096, 70000}
+	}
+	for _, size := range spellSizes {
+		for op := 0; op < 2; op++ {
+			for _, other := range devs {
+				for sp := 1; sp <= 5; sp++ {
+					for _, kind := range []int{kMissing, kOther, kSymlinkToOther, kDir} {
+						variant++
+						dstSpell = sp
+						one(op, kind, other, false, size, variant, 0)
+						dstSpell = 0
+					}
+					for _, kind := range []int{kMissing, kOther} {
+						variant++
+						srcSpell = sp
+						one(op, kind, other, false, size, variant, 0)
+						srcSpell = 0
+					}
+					// both spelled (only combinations that need at most one working directory)
+					if sp <= 2 {
+						variant++
+						srcSpell, dstSpell = sp, 3-sp
+						one(op, kMissing, other, false, size, variant, 0)
+						srcSpell, dstSpell = 0, 0
+					}
+				}
+				if retErr != nil {
+					return retErr
+				}
+			}
+		}
+	}
+	// ---- existing destinations in every relation of size / modification time / content to the source, and
+	// two-step sequences onto one destination
+	prepSizes := []int{0, 1, 10, 4096, 65536}
+	if e.Thorough() {
+		prepSizes = append(prepSizes, 4095, 100000, 1<<20)
+	}
+	for _, size := range prepSizes {
+		for op := 0; op < 2; op++ {
+			for _, other := range devs {
+				for _, kind := range []int{kOther, kSymlinkToOther} {
+					for pm := 1; pm <= 7; pm++ {
+						if size == 0 && (pm == 3 || pm == 4 || pm == 7) {
+							continue // no two different contents of length 0
+						}
+						for _, class := range []int{0, 1} {
+							if size == 0 && class > 0 {
+								continue
+							}
+							variant++
+							prep = pm
+							one(op, kind, other, false, size, variant, class)
+							prep = 0
+						}
+					}
+				}
+				if retErr != nil {
+					return retErr
+				}
+			}
+		}
+	}
+	e.Stats["by_spelling"] = bySpelling
+	e.Stats["by_destination_state"] = byPrep
 	if devFullOK && !devFullIntact() {
 		return fmt.Errorf("/dev/full is no longer the character device 1:7 after the sweep")
 	}
